@@ -658,7 +658,162 @@ pub fn wire_cases(tier: &str) -> Vec<Value> {
         out.push(json!({"engine":"ewire","check":"c12","from":i,"to":(i + chunk).min(n),"thorough":thorough}));
         i += chunk;
     }
+    // replies larger than the 548-octet minimum every client must accept: the payload on the wire
+    // must be the reply the handler computed, whatever maximum message size the client states
+    out.push(json!({"engine":"ewire","check":"c12","kind":"big","thorough":thorough}));
     out
+}
+
+fn big_yaml() -> String {
+    let mut domains = vec![];
+    // about 700 octets of reply: over the 548-octet minimum, well under what one frame carries
+    for i in 0..9 {
+        domains.push(format!("'department-{i:02}.some-rather-long-organisation-name.example'"));
+    }
+    format!("---\ndhcp-policies:\n  - match-subnet: 192.0.2.0/24\n    apply-range: {{start: 192.0.2.10, end: 192.0.2.11}}\n    apply-dns-searches: [{}]\n    apply-domain-name: 'a-domain-name-that-is-not-short.example'\n", domains.join(", "))
+}
+
+fn wire_run_big(case: &Value) -> crate::netrun::CaseResult {
+    use crate::ewire::*;
+    use crate::netrun::CaseResult;
+    teardown_veth();
+    if let Err(e) = setup_veth(Route6::None) {
+        return CaseResult::machinery(format!("veth set-up: {e}"));
+    }
+    let mut res = CaseResult::ok("wire-big");
+    let mut w = match WireRt::new() {
+        Ok(w) => w,
+        Err(e) => return CaseResult::machinery(e),
+    };
+    crate::common::clock::set_secs(1_700_000_000);
+    let netinfo = w.rt.block_on(erbium_net::netinfo::SharedNetInfo::new());
+    w.pump(4);
+    let mut wire = match Wire::open() {
+        Ok(x) => x,
+        Err(e) => return CaseResult::machinery(e),
+    };
+    let yaml = big_yaml();
+    let mut n_replies = 0u64;
+    let mut n_msgs = 0u64;
+    let mut sizes = vec![];
+    for maxmsg in [None, Some(300u16), Some(576), Some(1000), Some(1500)] {
+        for flags in [0u16, 0x8000] {
+            for mtype in [1u8, 3] {
+                let conf = match erbium::config::verif_load_config_from_string(&yaml) {
+                    Ok(c) => c,
+                    Err(e) => return CaseResult::machinery(format!("big wire config: {e}")),
+                };
+                // the reply the handler computes for this very request, on a store of its own
+                let mac = WIRE_MACS[0];
+                let mut other: std::collections::HashMap<dhcppkt::DhcpOption, Vec<u8>> = Default::default();
+                other.insert(dhcppkt::OPTION_MSGTYPE, vec![mtype]);
+                other.insert(dhcppkt::OPTION_PARAMLIST, vec![1, 3, 6, 15, 51, 54, 119]);
+                if let Some(m) = maxmsg {
+                    other.insert(dhcppkt::DhcpOption::from(57u8), m.to_be_bytes().to_vec());
+                }
+                let expected = {
+                    let g = conf.try_read().expect("conf");
+                    let mut p = erbium::dhcp::pool::Pool::new_in_memory().expect("pool");
+                    let req = erbium::dhcp::DHCPRequest {
+                        pkt: dhcppkt::Dhcp { op: dhcppkt::OP_BOOTREQUEST, htype: dhcppkt::HWTYPE_ETHERNET, hlen: 6, hops: 0, xid: 0x6000_0001, secs: 0, flags, ciaddr: Ipv4Addr::UNSPECIFIED, yiaddr: Ipv4Addr::UNSPECIFIED, siaddr: Ipv4Addr::UNSPECIFIED, giaddr: Ipv4Addr::UNSPECIFIED, chaddr: mac.to_vec(), sname: vec![], file: vec![], options: dhcppkt::DhcpOptions { other: other.clone() } },
+                        serverip: SRV_IP4,
+                        ifindex: 1,
+                        if_mtu: Some(1500),
+                        if_router: None,
+                    };
+                    match panics::catch(|| erbium::dhcp::handle_pkt(&mut p, &req, Default::default(), &g)) {
+                        Ok(Ok(r)) => ref_decode(&r.serialise()).ok(),
+                        _ => None,
+                    }
+                };
+                let Some(expected) = expected else { continue };
+                let pool = erbium::dhcp::pool::Pool::new_in_memory().expect("pool");
+                let svc = match w.rt.block_on(erbium::dhcp::DhcpService::verif_new_on_port(netinfo.clone(), conf, pool, 67)) {
+                    Ok(s) => std::sync::Arc::new(s),
+                    Err(e) => return CaseResult::machinery(format!("DhcpService on port 67: {e}")),
+                };
+                let task = w.rt.spawn(svc.clone().run());
+                w.pump(4);
+                let mut hd = base_header();
+                hd.flags = flags;
+                hd.xid = 0x6000_0001;
+                hd.chaddr16 = [0; 16];
+                hd.chaddr16[..6].copy_from_slice(&mac);
+                let mut recs: Vec<(u8, Vec<u8>)> = vec![(53, vec![mtype]), (55, vec![1, 3, 6, 15, 51, 54, 119])];
+                if let Some(m) = maxmsg {
+                    recs.push((57, m.to_be_bytes().to_vec()));
+                }
+                let payload = ref_encode(&hd, &recs, &[]);
+                let frame = udp4_frame(&mac, &[0xff; 6], (Ipv4Addr::UNSPECIFIED, 68), (Ipv4Addr::BROADCAST, 67), &payload);
+                wire.poll();
+                let mark = wire.rx.len();
+                n_msgs += 1;
+                if let Err(e) = wire.send(&frame) {
+                    return CaseResult::machinery(e);
+                }
+                let mut reply: Option<Vec<u8>> = None;
+                let mut quiet = 0;
+                for _ in 0..60 {
+                    w.pump(4);
+                    let got = wire.poll();
+                    for f in &wire.rx[mark..] {
+                        if f.len() >= 12 && f[6..12] == SRV_MAC && as_dhcp_reply(f).is_some() {
+                            reply = Some(f.clone());
+                        }
+                    }
+                    if reply.is_some() {
+                        break;
+                    }
+                    if got == 0 {
+                        quiet += 1;
+                        if quiet >= 6 {
+                            break;
+                        }
+                    } else {
+                        quiet = 0;
+                    }
+                }
+                task.abort();
+                drop(svc);
+                w.pump(3);
+                wire.rx.clear();
+                let sub = json!({"engine":"ewire","check":"c12","kind":"big","maxmsg":maxmsg,"flags":flags,"type":mtype,"thorough":case["thorough"]});
+                let mk = |oracle: &str, what: String| Violation::new(oracle, format!("on the wire, big reply (message type {mtype}, flags {flags:#06x}, client's maximum message size {:?}): {what}", maxmsg), sub.clone()).sig("part", "wire").sig("kind", "big");
+                let Some(f) = reply else {
+                    res.violations.push(mk("wire-no-reply", "the handler computes a reply for this request but none appeared on the wire".into()));
+                    continue;
+                };
+                n_replies += 1;
+                let (dmac, sip, dip, dport, pl) = as_dhcp_reply(&f).unwrap();
+                sizes.push(pl.len());
+                if let Err(e) = frame_check(&f, &pl, (sip, 67), (dip, dport), &SRV_MAC, &dmac) {
+                    res.violations.push(mk("frame-invalid", format!("reply frame: {e}")));
+                }
+                match ref_decode(&pl) {
+                    // (erbium writes options in hash-map order, which differs from run to run: the texts
+                    // below leave out what depends on it so that the same case reports the same thing)
+                    // one oracle, one text for "does not decode" and "decodes to something else": which of
+                    // the two a cut payload does depends on the option order
+                    r => {
+                        let same = matches!(&r, Ok(r) if r.options == expected.options && r.yiaddr == expected.yiaddr && r.xid == expected.xid && r.flags == expected.flags);
+                        if !same {
+                            res.violations.push(mk("payload-modified", format!("the payload on the wire ({} octets) is not the reply the handler computed for this request (it does not decode to it)", pl.len())));
+                        }
+                    }
+                }
+            }
+        }
+    }
+    drop(wire);
+    drop(w);
+    teardown_veth();
+    crate::common::clock::unset();
+    let mut st = serde_json::Map::new();
+    st.insert("wire_messages".into(), json!(n_msgs));
+    st.insert("wire_replies".into(), json!(n_replies));
+    st.insert(format!("class:big:{}", if sizes.iter().any(|s| *s > 548) { "over548" } else { "small" }), json!(1));
+    res.stats = Value::Object(st);
+    res
 }
 
 const WIRE_YAML: &str = "---
@@ -672,6 +827,9 @@ pub fn wire_run_case(case: &Value) -> crate::netrun::CaseResult {
     use crate::netrun::CaseResult;
     if !crate::enet::ISOLATED.load(std::sync::atomic::Ordering::SeqCst) {
         return CaseResult::machinery("the wire part needs a private network namespace (unshare failed)");
+    }
+    if case["kind"].as_str() == Some("big") {
+        return wire_run_big(case);
     }
     let thorough = case["thorough"].as_bool().unwrap_or(false);
     teardown_veth();
@@ -857,6 +1015,10 @@ pub fn run(tier: &str, replay: Option<Value>) -> ! {
             Some("frame-sweep") => {
                 check_checksum_sweeps(&mut rep, true);
             }
+            _ if case["engine"].as_str() == Some("ewire") && case["kind"].as_str() == Some("big") => {
+                crate::enet::isolate_network();
+                crate::netrun::replay_one(&mut rep, &json!({"engine":"ewire","check":"c12","kind":"big","thorough":false}), wire_run_case);
+            }
             _ if case["engine"].as_str() == Some("ewire") => {
                 crate::enet::isolate_network();
                 // replay the one history on a fresh rig
@@ -890,7 +1052,7 @@ pub fn run(tier: &str, replay: Option<Value>) -> ! {
     rep.cov("wire_messages_sent", agg.stats_sum.get("wire_messages").copied().unwrap_or(0.0) as u64);
     rep.cov("wire_reply_frames_judged", e5);
     rep.cov("wire_classes", json!(agg.stats_sum.keys().filter_map(|k| k.strip_prefix("class:").map(|s| s.to_string())).collect::<Vec<_>>()));
-    rep.cov("wire_rule", "the real DhcpService (run loop, recvdhcp, real netlink-fed NetInfo, raw transmit) on port 67 on one end of a veth pair in a private network namespace; every history of 2 (thorough 3) messages over {2 clients} x {DISCOVER, REQUEST selecting, REQUEST with ciaddr = own / the other client's / a foreign address} x flags {0, 0x8000} (thorough + 0x0001, 0x7fff, 0xffff) sent as real frames from the other end; every reply frame captured there must verify (lengths, IPv4 and UDP checksum, payload decodes, xid) and be IPv4-addressed to 255.255.255.255 iff the broadcast bit was set, otherwise to the address it assigns");
+    rep.cov("wire_rule", "the real DhcpService (run loop, recvdhcp, real netlink-fed NetInfo, raw transmit) on port 67 on one end of a veth pair in a private network namespace; every history of 2 (thorough 3) messages over {2 clients} x {DISCOVER, REQUEST selecting, REQUEST with ciaddr = own / the other client's / a foreign address} x flags {0, 0x8000} (thorough + 0x0001, 0x7fff, 0xffff) sent as real frames from the other end; every reply frame captured there must verify (lengths, IPv4 and UDP checksum, payload decodes, xid) and be IPv4-addressed to 255.255.255.255 iff the broadcast bit was set, otherwise to the address it assigns; plus a configuration whose replies exceed 548 octets, asked with the client's maximum message size absent / 300 / 576 / 1000 / 1500: the payload on the wire must decode to the reply the handler computes for that request");
     rep.cov("evaluations", e1 + e2 + e3 + e4 + e5);
     rep.cov("distinct_nontrivial", d1 + d2 + d3);
     rep.cov("rule", "flags: all 65536 values; round trip: header variants x hlen 0..16 x sname/file boundary lengths (full product) + all option sets of size <=3 over 4 (thorough 6) codes x boundary lengths, each also decoded by an independent RFC 2131/3396 decoder; frames: every payload length 0..1472 x 5 patterns x 3 address tuples; checksum sweeps: all 65536 values of the first payload word and of the low half of the source address, for 4 (thorough 11) payload lengths x 2 (3) fills -- every value the one's-complement sum can take for that frame shape. distinct = outcome/shape classes (flags: (observed,expected) pairs; round trip: header/length classes; frames: length x pattern)");
